@@ -59,6 +59,15 @@ CLAIMED = {
  'C18': dict(cat='model_checking', tech='complete pair and triple tables of finite rotation groups (and conjugates/cosets) walked through the real metric functions, single and N-row, plus an explicit relative-angle grid',
    text='All unordered pairs of the octahedral / icosahedral groups and oblique copies for non-negativity, symmetry, zero set, sign invariance and the closed form; all triples (g, p, q) for left and right invariance; complete n^3 tables for the triangle inequality of the six true metrics; closed forms on 12 bases x 17 axes x 16 (82) relative angles from 1e-4 to pi, as quaternions and as matrices.',
    note='Finite groups and an angle grid; arccos-conditioned tolerances 1e-8, others 1e-9.'),
+ 'C08': dict(cat='exploration', tech='exhaustive grid walk (initial attitudes x rate axes x rates x step sizes x step counts x series orders) with every chain executed on the real integrators against a scalar cos/sin reference',
+   text='6 (20) initial attitudes x 17 (21) axes x 4 (7) rates x 3 (5) step sizes: closed-form update chained and judged at every step count up to 300 (600) and through the batch constructor; series orders 0-6 (equal to the documented truncation, error <= theta^(k+1), non-increasing in the order); null-accelerometer dead reckoning of Madgwick, Mahony, AQUA, EKF.f and ROLEQ chained 10 deep; angular_velocities of constant-rate and axis-switching sequences re-integrated; the vectorised integration method on single-axis rates.',
+   note='Grid, not the continuum; closed-form tolerance (n+4) 1e-14; re-integration budget is the analytic chord deficit x 1.01.'),
+ 'C15': dict(cat='model_checking', tech='explicit-state breadth-first search to the fixpoint over query histories of one real WMM object (fresh object + replay per transition, canonical state = hash of the full __dict__), differential oracle against a fresh object',
+   text='96 (108) constructor configurations x an operation menu of 52 (105) queries (places incl. equator, prime meridian, both poles, +-180; explicit decimal dates, calendar dates, date=None, argument omitted; reset_coefficients; reads); BFS with global state deduplication closes at 410 (about 3 000) states / 20 000 (400 000) transitions; at most K = 1 (3) consecutive date=None queries (deviation bound). On every transition the elements equal those of a fresh object asked the same question, H/F/I/D follow from X/Y/Z, ENU is the swapped/negated NED vector, everything is finite and never None, +180 = -180.',
+   note='The clock inside ahrs.utils.wmm is an owned seam (fixed today()). Bounded by the operation menu and the date=None deviation bound; hard caps (never hit on the unchanged tree) are reported if hit.'),
+ 'C20': dict(cat='exploration', tech='exhaustive walk of the configuration grid of Sensors (lengths x spans x yaw x references x noise triples x units x normalisation x generator seeds; given trajectories x rates x axes) with the module-level generator as an owned, recorded seam',
+   text='25 000-43 000 (quick) / about 400 000 (thorough) constructions: accelerometer and magnetometer rows equal R^T ref plus a recorded standard-normal draw times the reported noise (exactly R^T ref when the noise is 0), rotations/quaternions/ang_pos describe the same attitudes, gyroscopes minus reported bias equal the ground-truth rate plus recorded noise and integrate back to the trajectory within the analytic chord bound, normalised magnetometer rows have unit norm.',
+   note='ahrs.utils.sensors.GENERATOR is rebound to a recording wrapper around default_rng(s) for a fixed menu of s; reference vectors are read back from the instance.'),
 }
 PENDING_REASON = 'check not built yet in this session (planned in DESIGN.md section 3); not claimed until it runs clean'
 
